@@ -94,6 +94,8 @@ PatchClauses(e) ==
      <<"PatchIsSubregion", PatchIsSubregion(e)>>,
      <<"PatchPlacement", PatchPlacement(e)>>,
      <<"AssembleReproduces", e.assembled = 1>>,
+     <<"BlendAssembleTotal", e.blend # -1>>,                 \* blend_and_assemble() returns ...
+     <<"BlendedReassemblyReproduces", e.blend # 0>>,          \* ... the base image (unmodified patches, weights sum to one)
      <<"CornersAgree", CornersAgree(e)>>,
      <<"CentresAgree", CentresAgree(e)>> >>
 AllFailingP(cl) == {cl[i][1] : i \in {j \in DOMAIN cl : ~cl[j][2]}}
